@@ -315,7 +315,8 @@ def _has_arith(e):
 
 
 def _mentions_arg(e):
-    return any(isinstance(x, tuple) and x[0] == 'arg' for x in expr_walk(e))
+    """depends on a parameter other than the interpreter state (arg1): what a commit wrapper forwards is its caller's"""
+    return any(isinstance(x, tuple) and x[0] == 'arg' and x[1] >= 2 for x in expr_walk(e))
 
 
 def _mentions(e, names):
